@@ -247,7 +247,9 @@ pub fn check(ctx: &Ctx) -> i32 {
                         let mid = cv + *dur_ms as f64 / 2000.0 + 1.0e-5;
                         cv += *dur_ms as f64 / 1000.0;
                         if iv < n_ev && oracle::refmodel::tick_is_robust(mid) {
-                            mixed.push(Op::WV { pts: T(mid), data: Bytes::new(video_frame(VCodec::H264, false, false, 40 + iv as u32, 6).0), key: false });
+                            // (through either explicit entry point, alternating from case to case)
+                            let data = Bytes::new(video_frame(VCodec::H264, false, false, 40 + iv as u32, 6).0);
+                            mixed.push(if (idx + k) % 2 == 0 { Op::WV { pts: T(mid), data, key: false } } else { Op::WVD { pts: T(mid), dts: T(mid), data, key: false } });
                         }
                     }
                     _ => {}
